@@ -56,7 +56,7 @@ double Random(void)
 
 	double ret = 0.0;
 	unsigned lzs = intrinsics_clz(u_val) + 1;
-	u_val <<= lzs;
+	u_val = u_val << (lzs - 1) << 1; // lzs may be 64: a single shift by 64 is undefined behaviour
 	u_val >>= 12;
 
 	uint64_t exp = 1023 - lzs;
